@@ -670,3 +670,40 @@ Proof.
   rewrite find_rank; [reflexivity|].
   apply (Permutation_in i (Permutation_sym HP)). apply in_seq. lia.
 Qed.
+
+(* ================================================================ layout functions vs chunking *)
+(* the layout functions compared with the real outputs compute the sizes of the very chunks the theorems speak about *)
+Lemma chunks_pieces sz : 1 <= sz -> forall f1 f2 l,
+  (length l < f1)%nat -> (Z.to_nat (lenZ l / sz) < f2)%nat ->
+  map lenZ (chunks f1 sz l) = piece_sizes f2 (lenZ l) sz.
+Proof.
+  intros Hsz. induction f1 as [|f1 IH]; intros f2 l H1 H2; [lia|].
+  destruct f2 as [|f2]; [lia|].
+  destruct l as [|x r].
+  - cbn [chunks map piece_sizes]. reflexivity.
+  - change (chunks (S f1) sz (x :: r)) with (takeZ sz (x :: r) :: chunks f1 sz (dropZ sz (x :: r))).
+    set (l := x :: r) in *.
+    assert (Hn : 0 < lenZ l) by (unfold l; rewrite lenZ_cons; pose proof (lenZ_nonneg r); lia).
+    cbn [map piece_sizes].
+    destruct (lenZ l <=? 0) eqn:E0; [apply Z.leb_le in E0; lia|].
+    f_equal.
+    + destruct (lenZ l <? sz) eqn:E.
+      * apply Z.ltb_lt in E. rewrite takeZ_all by lia. reflexivity.
+      * apply Z.ltb_ge in E. apply lenZ_takeZ. lia.
+    + destruct (Z_le_gt_dec (lenZ l) sz) as [Hle|Hgt].
+      * assert (Hd : dropZ sz l = []) by (unfold dropZ, lenZ in *; apply skipn_all2; lia).
+        rewrite Hd. replace (chunks f1 sz []) with (@nil (list Z)) by (destruct f1; reflexivity).
+        destruct f2; cbn [map piece_sizes]; [reflexivity|].
+        destruct (lenZ l - sz <=? 0) eqn:E1; [reflexivity|apply Z.leb_gt in E1; lia].
+      * assert (Hdl : lenZ (dropZ sz l) = lenZ l - sz) by (apply lenZ_dropZ; lia).
+        rewrite <- Hdl. apply IH.
+        -- unfold dropZ. rewrite skipn_length. unfold l in *. cbn [length] in *. lia.
+        -- rewrite Hdl.
+           assert (Hq : (lenZ l - sz) / sz = lenZ l / sz - 1).
+           { replace (lenZ l - sz) with (lenZ l + (-1) * sz) by lia. rewrite Z.div_add by lia. lia. }
+           rewrite Hq. assert (1 <= lenZ l / sz) by (apply Z.div_le_lower_bound; lia). lia.
+Qed.
+
+Theorem layout_link (sz : Z) (l : list Z) : 1 <= sz ->
+  map lenZ (chunks_of sz l) = pieces (lenZ l) sz.
+Proof. intros H. apply chunks_pieces; [exact H|lia|lia]. Qed.
